@@ -218,7 +218,7 @@ func one(r *ev.Run, c *ev.Case, i int, mu *sync.Mutex, seenKeys map[string]int) 
 		want[int(a)] = id
 	}
 	validity := []uint64{1, 59, 3600, 43200, 1 << 31, 315360000, 7, 0, 1<<32 + 1, 1 << 40, 9223372037, 10000000000, 1<<53 - 1}[rng.Intn(13)]
-	conf := gsrig.Conf{PubKeyDir: kd.Path, Identifiers: ids, ValiditySec: validity}
+	conf := gsrig.Conf{PubKeyDir: kd.Path, Identifiers: ids, ValiditySec: validity, Siblings: rng.Intn(3) == 0}
 	if rng.Intn(12) == 0 {
 		conf.OmitValidity = true
 		validity = 12 * 3600 // documented default
